@@ -938,7 +938,7 @@ fn c20_with(case: &Case, refused_duplicates: bool) -> Verdict {
                     }
                     if infos[u].name.is_empty() {
                         // a placeholder must not pass for one of the named systems of this builder
-                        if infos.iter().any(|o| o.parent.is_none() && !o.name.is_empty() && sanitise(&o.name) == *label) {
+                        if infos.iter().any(|o| o.parent.is_none() && !o.name.is_empty() && !o.name.starts_with("unnamed_") && sanitise(&o.name) == *label) {
                             return Fails(format!("stage {} group {} position {} runs the unnamed {} but the printed plan shows the name `{}` of another system", s, g, p, nm(&infos[u]), label));
                         }
                     }
